@@ -171,6 +171,22 @@ type TreeCfg struct {
 var OddKeys = []string{"", "a.b", "has space", "é", "0", "true", "null", "a:b", "- x", "k#", "$$", "日本", "a.b.c.d", "x\ty",
 	"long-" + string(make([]byte, 0)) + "kkkkkkkkkkkkkkkkkkkkkkkkkkkkkkkkkkkkkkkkkkkkkkkkkkkkkkkkkkkkkkkkkkkkkkkkkkkkkkkkkkkkkkkkkkkkkkkkkkkkkkkkkkkkkkkkkkkkkkkkkkkkkkkkkkkkkkkkkkkkkkkkkkkkkkkkkkkkkkkkkkkkkkkkkkkkkkkkkkkkkkkkkkkkkkkkkkkkkkkkkkkkkkkkkkkkkkkkkkkkkkkkkkkkkkkkkkkkkkkkkkkkkkkkkkkkkkkkkkkkkkkk"}
 
+// KeyFamilies are sets of distinct keys that a looser comparison than string
+// equality takes for equal (numeric value, case, Unicode normalisation,
+// surrounding blanks, values beyond 64 bits): all members go into one map.
+var KeyFamilies = [][]string{
+	{"1", "01", "001"},
+	{"k7", "k07", "k007"},
+	{"9", "10", "010"},
+	{"18446744073709551616", "18446744073709551617"},
+	{"n99999999999999999999", "n99999999999999999998"},
+	{"Key", "key", "KEY"},
+	{"\u00e9", "e\u0301"},
+	{"b", "b ", " b"},
+	{"1.0", "1", "1e0"},
+	{"x-1", "x_1", "x1"},
+}
+
 // Bulk adds large members to a root map.
 func (c TreeCfg) Bulk(r *Rand, m map[string]any) {
 	switch r.Intn(4) {
@@ -271,6 +287,11 @@ func (c TreeCfg) Map(r *Rand, depth int) map[string]any {
 			k = PickAny(r, OddKeys)
 		}
 		m[k] = c.Tree(r, depth-1)
+	}
+	if c.OddKeyP > 0 && r.Chance(c.OddKeyP) {
+		for _, k := range PickAny(r, KeyFamilies) {
+			m[k] = c.Tree(r, depth-1)
+		}
 	}
 	if depth == c.MaxDepth && c.BigP > 0 && r.Chance(c.BigP) {
 		c.Bulk(r, m)
